@@ -1,5 +1,5 @@
 // bounded stand-in / replay driver (appended to acts/src/cache/tests.rs of a scratch copy): property C17.
-// keep_processes off / on x ending {completed, aborted, error}: after the terminal event (and two ticks later, so that late task events
+// keep_processes off / on (and off with the process evicted from the memory cache just before it ends) x ending {completed, aborted, error}: after the terminal event (and two ticks later, so that late task events
 // and ticks have run) the rows of the finished process are all gone / all there in terminal states, a further action on it is refused,
 // and a second process that is still running keeps every row.
 #[tokio::test]
@@ -7,7 +7,7 @@ async fn verif_replay_hist_retention() {
     use crate::{Act, Vars, MessageState, Action, event::EventAction, store::query::{Cond, Expr, Query}, utils::consts};
     use std::sync::{Arc, Mutex};
     let mut bad: Vec<String> = Vec::new();
-    for keep in [false, true] {
+    for (keep, evict) in [(false, false), (true, false), (false, true)] {
         for ending in ["completed", "aborted", "error"] {
             let config = crate::config::ConfigData { keep_processes: Some(keep), cache_cap: Some(100), ..crate::config::ConfigData::default() };
             let engine = EngineBuilder::new().set_config(&config).build().await.unwrap().start();
@@ -32,13 +32,20 @@ async fn verif_replay_hist_retention() {
                     let _ = s.do_action(&Action::new(&e.pid, &e.tid, ev, &o));
                 }
             });
+            if evict {
+                // the finishing process leaves the memory cache while it runs (as under cache pressure) and ends from its queued tasks: its rows must go all the same
+                let (c, p, once) = (rt.cache().clone(), pid.clone(), Arc::new(Mutex::new(false)));
+                rt.scher().on_task(move |e| {
+                    if e.inner().pid == p && e.inner().node().id() == "step1" && e.inner().state().is_completed() && !*once.lock().unwrap() { *once.lock().unwrap() = true; c.uncache(&p); }
+                });
+            }
             rt.launch(&oproc);
             rt.launch(&proc);
             for _ in 0..200 { if proc.state().is_completed() { break; } tokio::time::sleep(std::time::Duration::from_millis(25)).await; }
             tokio::time::sleep(std::time::Duration::from_millis(2200)).await;
             let store = rt.cache().store();
             let task_rows = |p: &str| store.tasks().query(&Query::new().push(Cond::and().push(Expr::eq("pid", p.to_string()))).set_limit(1000)).unwrap().rows;
-            let what = format!("keep_processes={keep}, ending {ending}");
+            let what = format!("keep_processes={keep}, ending {ending}{}", if evict { ", the process evicted from the cache before it ended" } else { "" });
             if !proc.state().is_completed() { bad.push(format!("REPLAY-FAIL {what}: the process did not end ({})", proc.state())); continue; }
             let rows = task_rows(&pid);
             let prow = store.procs().find(&pid);
